@@ -10,6 +10,7 @@ Require Import Zrs.lib.RsPrelude Zrs.gen.RefTables Zrs.gen.Generated Zrs.model.B
 Require Import Zrs.proofs.C12_Fse.
 Require Import Zrs.model.BitIO Zrs.model.BitStream Zrs.model.SeqEnc Zrs.model.BlockDec Zrs.proofs.C12_Stream Zrs.proofs.C12_SeqStream Zrs.proofs.C12_Predef.
 Require Import Zrs.model.FseEnc Zrs.model.SeqSection Zrs.proofs.C12_Desc Zrs.proofs.C12_Section.
+Require Import Zrs.proofs.C12_SeqStreamR Zrs.proofs.C12_Modes.
 Require Import Zrs.model.FseNorm Zrs.proofs.C12_Norm Zrs.proofs.C12_NormTotal Zrs.proofs.C12_TableWf Zrs.proofs.C12_Covers Zrs.proofs.C12_General.
 Open Scope Z_scope.
 
@@ -158,6 +159,52 @@ Example C12_predefined_distributions_are_normalised :
   dist_okb OF_DEFAULT_ACC_LOG OFFSET_DEFAULT_DISTRIBUTION = true.
 Proof. vm_compute. repeat split. Qed.
 
+(** *** any combination of the four table modes
+
+    [tmode]: FSE compressed (a written description), predefined, RLE (one byte), repeat (what the decoder holds).
+    [mtable m prev prev_rle ... D rle]: the table and RLE byte the decoder is meant to hold afterwards; [tab_ready]: a
+    table in state mode is well formed and covers the codes used (true of every table built from a normalised
+    distribution: C12_general_table_theorem), an RLE "table" codes the one symbol.  The writer uses the encoder
+    derived from the table, or, for an RLE table, writes no bits at all ([E_rle]).  Whatever the three modes, the decoder
+    ends up with exactly those tables and RLE bytes and returns exactly the sequences that were coded. *)
+Theorem C12_sequences_section_with_any_table_modes :
+  forall (mll mof mml : tmode) (s : fse_scratch) (Dll Dof Dml : fse_table) (rll rof rml : option Z),
+  mtable mll (fs_ll s) (fs_ll_rle s) LL_MAX_LOG MAX_LITERAL_LENGTH_CODE LL_DEFAULT_ACC_LOG LITERALS_LENGTH_DEFAULT_DISTRIBUTION Dll rll ->
+  mtable mof (fs_of s) (fs_of_rle s) OF_MAX_LOG MAX_OFFSET_CODE OF_DEFAULT_ACC_LOG OFFSET_DEFAULT_DISTRIBUTION Dof rof ->
+  mtable mml (fs_ml s) (fs_ml_rle s) ML_MAX_LOG MAX_MATCH_LENGTH_CODE ML_DEFAULT_ACC_LOG MATCH_LENGTH_DEFAULT_DISTRIBUTION Dml rml ->
+  forall sl sm so, tab_ready Dll rll sl -> tab_ready Dml rml sm -> tab_ready Dof rof so ->
+  forall qs, qs <> [] -> Forall cseq_ok qs -> Forall (q_in sl sm so) qs ->
+  let stream := stream_bytes (enc_fields (enc_for Dll rll) (enc_for Dml rml) (enc_for Dof rof) qs) in
+  exists vals,
+    decode_sequences (Z.of_nat (length qs)) (Some (modes_byte mll mof mml)) (mbytes mll ++ mbytes mof ++ mbytes mml ++ stream) s =
+      ROk (scr Dll rll Dml rml Dof rof, vals) /\
+    Forall2 (fun q v => cseq_value q = Some v) qs vals.
+Proof. exact sequence_section_roundtrip_modes. Qed.
+
+(** every mode is available: the predefined tables are ready for all codes of their alphabets, an RLE byte within the
+    alphabet is ready for its symbol, repeat re-uses whatever is held (a table or an RLE byte) *)
+Theorem C12_every_mode_is_available :
+  (forall prev rle, t_max_symbol prev = MAX_LITERAL_LENGTH_CODE ->
+     mtable MPredef prev rle LL_MAX_LOG MAX_LITERAL_LENGTH_CODE LL_DEFAULT_ACC_LOG LITERALS_LENGTH_DEFAULT_DISTRIBUTION D_ll None /\ tab_ready D_ll None (codes 36)) /\
+  (forall prev rle, t_max_symbol prev = MAX_OFFSET_CODE ->
+     mtable MPredef prev rle OF_MAX_LOG MAX_OFFSET_CODE OF_DEFAULT_ACC_LOG OFFSET_DEFAULT_DISTRIBUTION D_of None /\ tab_ready D_of None (codes 29)) /\
+  (forall prev rle, t_max_symbol prev = MAX_MATCH_LENGTH_CODE ->
+     mtable MPredef prev rle ML_MAX_LOG MAX_MATCH_LENGTH_CODE ML_DEFAULT_ACC_LOG MATCH_LENGTH_DEFAULT_DISTRIBUTION D_ml None /\ tab_ready D_ml None (codes 53)) /\
+  (forall c prev prev_rle max_log max_code def_log def_dist, c <= max_code ->
+     mtable (MRle c) prev prev_rle max_log max_code def_log def_dist prev (Some c) /\ tab_ready prev (Some c) [c]) /\
+  (forall prev prev_rle max_log max_code def_log def_dist, mtable MRepeat prev prev_rle max_log max_code def_log def_dist prev prev_rle).
+Proof. split; [exact predef_mode_ll|]. split; [exact predef_mode_of|]. split; [exact predef_mode_ml|]. split; [exact rle_mode|exact repeat_mode]. Qed.
+
+(** non-vacuity: literal lengths in RLE mode, offsets repeated, match lengths predefined *)
+Example C12_modes_example :
+  match decode_sequences 2 (Some (modes_byte (MRle 3) MRepeat MPredef)) (3 :: ex_stream) (sc D_ll D_ml D_of) with
+  | ROk (s', vals) => vals = [{| sq_ll := 3; sq_ml := 5; sq_of := 49 |}; {| sq_ll := 3; sq_ml := 5; sq_of := 49 |}] /\ fs_ll_rle s' = Some 3
+  | _ => False
+  end.
+Proof. exact modes_example. Qed.
+
+Print Assumptions C12_sequences_section_with_any_table_modes.
+Print Assumptions C12_every_mode_is_available.
 Print Assumptions C12_table_description_roundtrip.
 (** THE GENERAL TABLE THEOREM: for every accuracy log 5..9 and EVERY normalised distribution -- probabilities >= -1, a
     "less than one" probability (-1) counting 1, total 2^accuracy_log -- over an alphabet of at most 256 symbols, the
